@@ -18,6 +18,7 @@ from typing import Dict, List, Optional, Tuple
 
 VERIF = os.path.dirname(os.path.dirname(os.path.dirname(os.path.abspath(__file__))))
 REPO = os.environ.get("JV_REPO", "/repo")
+CROSS = bool(os.environ.get("JV_SELFTEST_CROSS"))
 
 
 def load_variants() -> List[dict]:
@@ -63,6 +64,19 @@ def run_variant(v: dict) -> dict:
         out = p.stdout + p.stderr
         rules = sorted({ln.split()[0] for ln in out.splitlines() if ln.startswith("  R") or ln.startswith("  E")})
         kind = v["kind"]
+        if kind == "benign" and CROSS and p.returncode == 0:
+            # a behaviour-preserving edit must leave *every* property's check silent, not just its own
+            for i in range(1, 21):
+                q = "C%02d" % i
+                if q == v["prop"] or q in v.get("also", []):
+                    continue
+                p2 = subprocess.run([sys.executable, "-m", "jv", "check", q, "--repo", tmp, "--no-write"],
+                                    cwd=VERIF, capture_output=True, text=True, timeout=600, env=env)
+                if p2.returncode != 0:
+                    p = p2
+                    out = f"[cross-check {q}]\n" + p2.stdout + p2.stderr
+                    rules = sorted({ln.split()[0] for ln in out.splitlines() if ln.startswith("  R") or ln.startswith("  E")})
+                    break
         if kind == "break":
             ok = p.returncode == 1 and (not v.get("rule") or any(r.startswith(v["rule"]) for r in rules))
         else:
